@@ -639,7 +639,33 @@ def r6_no_lossy_cast(ctx, rid="C14.R6"):
             ctx.check(R, "cast:%s:%s->%s" % (f.id, src, dst), ok, "`as` cast from %s to %s %s" % (src, dst, "preserves the value" if ok else "can change the value (truncation / sign change)"), (f, bb))
 
 
-RULES = [("C14.R1", r1_codec), ("C14.R2", r2_bound), ("C14.R3", r3_failures), ("C14.R4", r4_token_wins), ("C14.R5", r5_limit), ("C14.R6", r6_no_lossy_cast)]
+def r7_envelope_fields_required(ctx, rid="C14.R7"):
+    """Added after adversary change C14-H: `#[serde(default)]` on the token's version field (with V1 as the default) made a token without any
+    version acceptable."""
+    R = ctx.rule(rid, "a token that lacks a part of its envelope is refused: the derived deserialiser of SerializedToken reports every field of the struct (the version and the page start) "
+                 "as missing when absent, and falls back to no default", floor=3)
+    adt = ctx.ds.adts.get("pagination::SerializedToken")
+    fields = [fl["name"] for fl in adt["variants"][0]["fields"]] if adt else []
+    ctx.check(R, "envelope-fields", "v" in fields and "page_start" in fields, "fields of SerializedToken: %s" % fields, None, nontrivial=False)
+    vms = [f for f in ctx.ds.F.values() if re.search(r"impl .*Deserialize<'de> for pagination::SerializedToken<.*::visit_map$", f.id)]
+    if len(vms) != 1:
+        ctx.lost(R, "the derived Visitor::visit_map of SerializedToken (%d found)" % len(vms))
+        return
+    vm = vms[0]
+    reported = []
+    for g in [vm] + ctx.ds.descendants(vm):
+        for bb, t in g.live_calls(r"_serde::__private::de::missing_field$"):
+            for a in t["args"]:
+                v = (a.get("val") or {}).get("str") if a.get("k") == "const" else None
+                if v is not None:
+                    reported.append(v)
+    for name in fields:
+        ctx.check(R, "absent-%s-is-an-error" % name, name in reported, "visit_map reports a missing `%s` through serde's missing_field: %s" % (name, name in reported), vm)
+    defaults = [t["callee"] for g in [vm] + ctx.ds.descendants(vm) for bb, t in g.live_calls(r"default::Default::default$")]
+    ctx.check(R, "no-default-for-absent-fields", not defaults, "Default::default calls in the derived visit_map: %d" % len(defaults), vm)
+
+
+RULES = [("C14.R1", r1_codec), ("C14.R2", r2_bound), ("C14.R3", r3_failures), ("C14.R4", r4_token_wins), ("C14.R5", r5_limit), ("C14.R6", r6_no_lossy_cast), ("C14.R7", r7_envelope_fields_required)]
 
 PG = "dropshot/src/pagination.rs"
 HD = "dropshot/src/handler.rs"
@@ -926,3 +952,4 @@ fn check_generated_token_length(token: String) -> Result<String, HttpError> {
 LEVEL_TEXT += (" R4 accepts any test of the presence of the token: the test of the lookup result or of an Option built as Some exactly on its Some edge and None exactly on its None edge "
                "(`get(k).map(decode).transpose()?` matched afterwards; lib_c14.presence_tests); from_map / First must sit behind a None edge of such a test, decoding / Next behind a Some edge.")
 LEVEL_TEXT += " Also (R6): no integer of the pagination path is narrowed or re-signed by an `as` cast."
+LEVEL_TEXT += " Also (R7): every field of the token envelope is required by the derived deserialiser (no serde default)."
